@@ -485,6 +485,11 @@ func (m *Dense) Copy(a Matrix) (r, c int) {
 					blas64.Vector{N: c, Inc: 1, Data: m.mat.Data[i*m.mat.Stride : i*m.mat.Stride+c]})
 			}
 		} else {
+			if amat.Stride != m.mat.Stride {
+				// The row order chosen below is only
+				// safe for equal strides.
+				m.checkOverlap(amat)
+			}
 			switch o := offset(m.mat.Data, amat.Data); {
 			case o < 0:
 				for i := r - 1; i >= 0; i-- {
@@ -514,6 +519,11 @@ func (m *Dense) Copy(a Matrix) (r, c int) {
 		if amat.Inc == 1 && stride == 1 {
 			copy(m.mat.Data, amat.Data[:n])
 			break
+		}
+		if !trans && amat.Inc != stride {
+			// The direction chosen below is only
+			// safe for equal increments.
+			m.checkOverlap(aU.asGeneral())
 		}
 		switch o := offset(m.mat.Data, amat.Data); {
 		case o < 0:
